@@ -168,7 +168,7 @@ fn run_transition(sc: &Scenario, path: &str, h: &[u32], a: Option<usize>, base: 
     }
     if let Some(ai) = a {
         let act = sc.alphabet.get(ai);
-        if act == Action::OpenReader && r.num_readers() >= sc.max_readers {
+        if (act == Action::OpenReader || matches!(act, Action::TxReaderInside { .. })) && r.num_readers() >= sc.max_readers {
             // bounded number of simultaneous readers: not a transition
             return res;
         }
@@ -177,7 +177,7 @@ fn run_transition(sc: &Scenario, path: &str, h: &[u32], a: Option<usize>, base: 
                 return res;
             }
         }
-        if let (Some(limit), Action::Tx { commit: true, .. }) = (sc.reader_commit_limit, &act) {
+        if let (Some(limit), Action::Tx { commit: true, .. } | Action::TxReaderInside { commit: true, .. }) = (sc.reader_commit_limit, &act) {
             if r.reader_models().iter().any(|(_, age)| *age >= limit) {
                 return res;
             }
@@ -424,7 +424,7 @@ pub fn explore(check: &mut Check, prop: &str, engine: &str) {
         let mut visited: HashSet<u128> = HashSet::new();
         let mut first_hist: std::collections::HashMap<u128, Vec<u32>> = std::collections::HashMap::new();
         let mut merge_pairs: Vec<(Vec<u32>, Vec<u32>)> = vec![];
-        let commit_count = |h: &[u32]| -> usize { h.iter().filter(|&&i| matches!(sc.alphabet.get(i as usize), Action::Tx { commit: true, .. })).count() };
+        let commit_count = |h: &[u32]| -> usize { h.iter().filter(|&&i| matches!(sc.alphabet.get(i as usize), Action::Tx { commit: true, .. } | Action::TxReaderInside { commit: true, .. })).count() };
         let mut frontier: Vec<Vec<u32>> = vec![];
         let mut st = SearchStats { max_live: 0, states: 0, transitions: 0, depth_completed: 0, cap_hit: false, closed: false, max_pages: 0 };
         // root
